@@ -686,6 +686,7 @@ class StringType(StandardEncodeMixin, PrimitiveOrConstructedType):
 
 class MembersType(StandardEncodeMixin, StandardDecodeMixin, Type):
     indefinite_allowed = True
+    any_order = False  # Whether members may be encoded in any order (SET)
 
     def __init__(self, name, tag_name, tag, root_members, additions):
         super(MembersType, self).__init__(name,
@@ -822,8 +823,9 @@ class MembersType(StandardEncodeMixin, StandardDecodeMixin, Type):
             if out_of_data:
                 break
 
-            if not decode_success:
-                # No members are able to decode data, exit loop
+            if not decode_success or not self.any_order:
+                # No members are able to decode data, or the members
+                # must come in the order they are defined, exit loop
                 break
 
         # Handle remaining members that there is no data for
@@ -1122,6 +1124,7 @@ class SequenceOf(ArrayType):
 
 
 class Set(MembersType):
+    any_order = True
 
     def __init__(self, name, root_members, additions):
         super(Set, self).__init__(name,
